@@ -24,6 +24,7 @@ type ConcCase struct {
 	Clients [][]Op    `json:"clients"`
 	Final   bool      `json:"final"`            // read every key back after the concurrent phase
 	Reopen  bool      `json:"reopen,omitempty"` // then Close, Open and read everything again: it must equal what was read before Close
+	Dir     string    `json:"dir,omitempty"`    // crashsim: run in this directory (kept), log every invoke/ack
 	Walk    bool      `json:"walk,omitempty"`   // C14: after the final read-back run a collection pass to quiescence and compare the roots with the readable keys
 }
 
@@ -49,6 +50,7 @@ type concRun struct {
 	written    map[uint64]Op // write id -> op
 	infra      string
 	reopenViol *Violation
+	opLog      func(kind string, client, n int, ev *HEvent) // crashsim: unbuffered invoke/ack log
 }
 
 func (cr *concRun) identify(key string, b []byte) (uint64, string) {
@@ -106,6 +108,9 @@ func (cr *concRun) do(client int, o Op) {
 	}
 	simrt.Yield("op.call")
 	ev := HEvent{Client: client, Op: o, Call: simrt.Step()}
+	if cr.opLog != nil {
+		cr.opLog("inv", client, len(cr.hist), &ev)
+	}
 	r := cr.a.apply(cr.w.Ctx, o)
 	simrt.Yield("op.return")
 	ev.Ret = simrt.Step()
@@ -117,11 +122,22 @@ func (cr *concRun) do(client int, o Op) {
 		ev.ValID, ev.Foreign = cr.identify(o.Key, r.Data)
 	}
 	ev.Keys = r.Keys
+	if cr.opLog != nil {
+		cr.opLog("ack", client, len(cr.hist), &ev)
+	}
 	cr.hist = append(cr.hist, ev)
 }
 
+var (
+	concKillAt   uint64
+	concKillTorn bool
+)
+
+// concOpLog is set by the crashsim child before it runs a concurrent workload.
+var concOpLog func(kind string, client, n int, ev *HEvent)
+
 func concExec(c ConcCase, choices []int32) (RunOut, *concRun) {
-	cr := &concRun{c: c, written: map[uint64]Op{}}
+	cr := &concRun{c: c, written: map[uint64]Op{}, opLog: concOpLog}
 	for _, o := range c.Init {
 		if o.ID != 0 {
 			cr.written[o.ID] = o
@@ -135,8 +151,14 @@ func concExec(c ConcCase, choices []int32) (RunOut, *concRun) {
 		}
 	}
 	res := simrt.Run(c.Sched.config(choices), func() {
-		w, err := NewWorld(c.World, c.Sched.Seed)
-		if err != nil {
+		var w *World
+		var err error
+		if c.Dir != "" {
+			w = worldAt(c.Dir, c.World, c.Sched.Seed, true)
+			if concKillAt != 0 {
+				simrt.SetKill(concKillAt, concKillTorn)
+			}
+		} else if w, err = NewWorld(c.World, c.Sched.Seed); err != nil {
 			cr.infra = err.Error()
 			return
 		}
@@ -206,7 +228,7 @@ func concExec(c ConcCase, choices []int32) (RunOut, *concRun) {
 			cr.infra = "close: " + err.Error()
 		}
 	})
-	if cr.w != nil {
+	if cr.w != nil && c.Dir == "" {
 		cr.w.Destroy()
 	}
 	out := RunOut{Steps: res.Steps, Switches: res.Switches, TimerFires: res.TimerFires, SimNs: res.SimTimeNs,
